@@ -179,7 +179,7 @@ DEPENDS = {
     "C07": ["delete-set", "slice", "partial", "export", "liveness", "block-wire", "state-vector", "creation"],
     "C08": ["slice", "delete-set", "partial", "block-wire", "state-vector", "merge", "lookup"],
     "C09": ["slice", "partial", "content", "identity", "weak-wire", "block-wire"],
-    "C11": ["liveness", "observers"],
+    "C11": ["liveness", "observers", "lookup"],
     "C12": ["splice", "squash", "lookup", "delete-set"],
     "C13": ["splice", "delete-set", "lookup", "content", "export", "liveness", "state-vector", "block-wire", "gc-scope"],
     "C14": ["splice", "liveness", "lookup", "redone", "block-iter", "identity"],
